@@ -120,12 +120,14 @@ class PluginGen(object):
         if name == "SettingsUpdated":
             self.applied = dict(self.store)
         elif name == "FileSelected":
+            self.formerRegions = list(self.regions) or getattr(self, "formerRegions", [])
             self.regions = []
         elif name == "PrintStarted":
             self.active = True
         elif name in END_EVENTS:
             self.active = False
             if self.applied["clearAfter"]:
+                self.formerRegions = list(self.regions) or getattr(self, "formerRegions", [])
                 self.regions = []
 
     # ------------------------------------------------------------------ API
@@ -283,6 +285,18 @@ class PluginGen(object):
         if rng.random() < 0.12:
             # the after-print hook right after a (re)start: nothing may be left of an earlier job
             self.steps.append(("hook", "gcode", "afterPrintDone"))
+        former = [r for r in getattr(self, "formerRegions", []) if r.get("t")]
+        if former and self.exactOnly and rng.random() < 0.5:
+            # visit the place of a region that has been cleared from the registry
+            reg = rng.choice(former)
+            if reg["t"] == "rect":
+                tx, ty = (reg["x1"] + reg["x2"]) // 2, (reg["y1"] + reg["y2"]) // 2
+            else:
+                tx, ty = reg["cx"], reg["cy"]
+            if not any(gen_motion.in_region(r, tx, ty) for r in self.regions):
+                self.steps.append(("g", "G28", {}))
+                self.steps.append(("g", "G1 X%s Y%s" % (fmt_mm(tx), fmt_mm(ty)), {}))
+                self.steps.append(("g", "G1 X1 Y1", {}))
         focus = rng.choice(["motion", "extrusion", "deferred", "at", "motion"])
         if self.focus == "deferred":
             focus = "deferred"
